@@ -200,8 +200,10 @@ func writeQueries(t *Toks, qs []uint8) {
 
 // observeC03 runs the real decoder and encoder on one byte string and reads the decoded header
 // through its public accessors: un hn re reUn ids gets.
-func observeC03(o *Toks, buf []byte, queries []uint8, prev []byte) (accepted bool) {
-	accepted = observeC03codec(o, buf)
+//
+// inplace: the re-encoding step writes into the buffer the packet was decoded from (see observeC03codec).
+func observeC03(o *Toks, buf []byte, queries []uint8, prev []byte, inplace bool) (accepted bool) {
+	accepted = observeC03codec(o, buf, inplace)
 	defer observeDirty(o, buf, prev)
 	if !accepted {
 		o.Nat(0).Nat(0)
@@ -253,10 +255,16 @@ func genPrev(r *Rand) []byte {
 	return encodeWire(w)
 }
 
-func observeC03codec(o *Toks, buf []byte) (accepted bool) {
+// observeC03codec: un hn re reUn.  With `inplace` the accepted packet is re-encoded by MarshalTo INTO THE
+// BUFFER IT WAS DECODED FROM (zero-copy forwarding: the extension values and the payload of the decoded
+// packet point into the destination).  The encoder's layout is never longer than the accepted image
+// (it drops padding between elements and whatever the decoder did not keep), so every element moves
+// onto itself or towards the front and the result is what Marshal() returns.
+func observeC03codec(o *Toks, buf []byte, inplace bool) (accepted bool) {
 	p := &rtp.Packet{}
 	var err error
-	if try(func() { err = p.Unmarshal(cloneBytes(buf)) }) {
+	own := cloneBytes(buf)
+	if try(func() { err = p.Unmarshal(own) }) {
 		o.Panic()
 	} else if writeRes(o, err) {
 		writePacketObs(o, p)
@@ -273,8 +281,25 @@ func observeC03codec(o *Toks, buf []byte) (accepted bool) {
 		o.Err("other").Err("other")
 		return false
 	}
+	// not in place where the encoder's header is LONGER than the decoded one (known finding
+	// c03_reserved_id: the decoder stops inside the block and the payload starts there): a header that
+	// grows over its own payload is no in-place rewrite the encoder supports
+	if inplace {
+		fits := false
+		try(func() { fits = p.Header.MarshalSize() <= n && p.MarshalSize() <= len(own) })
+		inplace = fits
+	}
 	var bs []byte
-	if try(func() { bs, err = p.Marshal() }) {
+	if try(func() {
+		if inplace {
+			var n int
+			if n, err = p.MarshalTo(own); err == nil {
+				bs = own[:n]
+			}
+		} else {
+			bs, err = p.Marshal()
+		}
+	}) {
 		o.Panic().Err("other")
 		return true
 	}
@@ -766,7 +791,11 @@ func init() {
 				c.I.Bytes(img)
 				writeQueries(&c.I, qs)
 				c.I.Bytes(prev)
-				observeC03(&c.O, img, qs, prev)
+				inplace := c.R.Chance(1, 3)
+				if inplace {
+					c.Tag("re-encode=in-place")
+				}
+				observeC03(&c.O, img, qs, prev, inplace)
 			})
 		}
 		// boundary grid: every block layout × CSRC count × payload × padding
@@ -947,7 +976,11 @@ func init() {
 				c.I.Bytes(buf)
 				writeQueries(&c.I, qs)
 				c.I.Bytes(prev)
-				if !observeC03(&c.O, buf, qs, prev) {
+				inplace := c.R.Chance(1, 3)
+				if inplace {
+					c.Tag("re-encode=in-place")
+				}
+				if !observeC03(&c.O, buf, qs, prev, inplace) {
 					c.Tag("rejected")
 					c.Trivial()
 				} else {
